@@ -5,7 +5,7 @@
     [valid_enum] is the rule as the property states it.  [enum_new]/[enum_raw] model the
     generated [new_with_raw_value]/[raw_value]. *)
 From BB Require Import Bits.
-From Coq Require Import String.
+From Coq Require Import String DecimalString.
 Open Scope N_scope.
 
 Inductive exh_kind := ExTrue | ExFalse | ExConditional.
@@ -371,7 +371,10 @@ Record enum_prog := mkEnumProg {
   ep_new_ret_result : option N;    (* Some b: Result<Self, u{b}>; None: Self *)
   ep_new_reader : bool;            (* match value.value() rather than match value *)
   ep_arms : list (N * string * bool * bool);   (* literal, variant, wrapped in Ok, carries the cfg attribute *)
-  ep_default : default_arm
+  ep_default : default_arm;
+  ep_has_unsafe : bool;            (* the token `unsafe` occurs in the expansion *)
+  ep_roots : list string;          (* first segments of every path / type / macro the expansion mentions *)
+  ep_docs : bool                   (* both generated functions carry a doc attribute *)
 }.
 
 Definition is_arb_enum (n : N) : bool := negb ((n =? 8) || (n =? 16) || (n =? 32) || (n =? 64)).
@@ -408,6 +411,13 @@ Definition var_eqb (a b : string * option N * bool) : bool :=
   let '(s, d, c) := a in let '(s', d', c') := b in
   String.eqb s s' && (match d, d' with Some x, Some y => x =? y | None, None => true | _, _ => false end) && Bool.eqb c c'.
 
+(** names the generated code may refer to (C18): arbitrary_int, primitives, prelude items of core, the enum itself
+    and its storage type as the user wrote it *)
+Definition enum_allowed_root (e : enum_decl) (storage_name : string) (r : string) : bool :=
+  existsb (String.eqb r)
+    ["arbitrary_int"%string; "Self"%string; "self"%string; "value"%string; "Ok"%string; "Err"%string; "Result"%string;
+     "unreachable!"%string; "u8"%string; "u16"%string; "u32"%string; "u64"%string; en_name e; storage_name].
+
 Definition check_enum (e : enum_decl) (p : enum_prog) : list (string * bool) :=
   let n := en_bits e in
   let nonexh := exh_matches (exh_of e) false in
@@ -428,7 +438,10 @@ Definition check_enum (e : enum_decl) (p : enum_prog) : list (string * bool) :=
           | DefErr => nonexh
           | DefUnreachable => negb nonexh
           | DefOther => false
-          end))].
+          end));
+   ("enum:surface"%string,
+      negb (ep_has_unsafe p) && ep_docs p
+      && forallb (enum_allowed_root e (String.append "u" (NilZero.string_of_uint (N.to_uint (en_bits e))))) (ep_roots p))].
 
 (** evaluating the translated match: first arm (whose cfg is live) with an equal literal *)
 Fixpoint arms_match (arms : list (N * string * bool * bool)) (livef : string -> bool) (x : N) : option string :=
